@@ -759,3 +759,228 @@ Proof.
 Qed.
 
 End DataboxProofs.
+
+(* ====================================================================== dataslate round trip *)
+Section SlateProofs.
+Variable A : Arith.
+Notation V := (car A).
+Notation series := (series A).
+Notation databox := (databox A).
+Notation item := (item A).
+Hypothesis miss_law : forall x : V, is_miss A x = true -> x = miss A.
+
+(* the value of variant k of a databox item at period t: series by period, numbers constant,
+   lists and series variants consumed exhaust-then-last; missing when there is nothing *)
+Definition raw_value (it : option item) (k : nat) (t : Z) : V :=
+  match it with
+  | None => miss A
+  | Some (INon (EScal v)) => v
+  | Some (INon (ESer _ s)) => ser_val A s k t
+  | Some (IList []) => miss A
+  | Some (IList l) => match etl l k (EScal (miss A)) with EScal v => v | ESer _ _ => miss A end
+  end.
+
+(* what the round trip must return for name nm, variant k, period t of the span starting at from:
+   the input value, cleared outside the base columns when clipping is requested, replaced by the declared
+   fallback only where it is missing, and by the declared overwrite everywhere *)
+Definition expected (db : databox) (o : sopts A) (nm : string) (k : nat) (from t : Z) : V :=
+  let v0 := raw_value (dget A db nm) k t in
+  let v1 := if o_clip_base o then (if nmem (Z.to_nat (t - from)) (o_base o) then v0 else miss A) else v0 in
+  let v2 := match flookup A (o_fallbacks o) nm with
+            | Some f => if is_miss A v1 then fb_at A f k else v1
+            | None => v1
+            end in
+  match flookup A (o_overwrites o) nm with Some f => fb_at A f k | None => v2 end.
+
+Lemma nth_repeat_same {T} (x : T) n j : nth j (repeat x n) x = x.
+Proof. revert j. induction n; intros [|j]; simpl; auto. Qed.
+
+Lemma all_ok_spec {T} (l : list (res T)) : forall xs, all_ok l = Ok xs ->
+  length xs = length l /\ forall i d, (i < length l)%nat -> nth i l (Err 0) = Ok (nth i xs d).
+Proof.
+  induction l as [|[x|e] r IH]; intros xs H; simpl in H.
+  - inversion H; subst. split; [reflexivity|]. intros i d Hi. simpl in Hi. lia.
+  - destruct (all_ok r) as [ys|e] eqn:E; [|discriminate]. inversion H; subst.
+    destruct (IH ys eq_refl) as [Hl Hn]. split; [simpl; now rewrite Hl|].
+    intros [|i] d Hi; simpl; [reflexivity|]. apply Hn. simpl in Hi. lia.
+  - discriminate.
+Qed.
+
+Lemma item_vec_spec (db : databox) fr from n k nm vec :
+  item_vec A fr from n k (dget A db nm) = Ok vec ->
+  length vec = n /\ forall j, (j < n)%nat -> nth j vec (miss A) = raw_value (dget A db nm) k (from + Z.of_nat j).
+Proof.
+  unfold item_vec, raw_value. destruct (dget A db nm) as [[[v|ds s]|l]|]; cbn [elem_vec].
+  - intros H; inversion H; subst. split; [apply repeat_length|]. intros j Hj.
+    rewrite <- (nth_repeat_same v n j) at 2. apply nth_indep. now rewrite repeat_length.
+  - destruct (s_start s) as [st|] eqn:Es.
+    + destruct (s_freq s =? fr); [|discriminate]. intros H; inversion H; subst.
+      split; [rewrite map_length, zrange_length; lia|]. intros j Hj.
+      rewrite nth_map_in with (d' := 0) by (rewrite zrange_length; lia).
+      rewrite zrange_nth by lia. reflexivity.
+    + intros H; inversion H; subst. split; [apply repeat_length|]. intros j Hj.
+      rewrite nth_repeat_same. unfold ser_val. rewrite (row_at_empty A s _ Es). unfold missrow.
+      now rewrite nth_repeat_same.
+  - destruct l as [|e0 l0]; [intros H; inversion H; subst; split; [apply repeat_length|intros; apply nth_repeat_same]|].
+    destruct (etl (e0 :: l0) k (EScal (miss A))) as [v|ds s]; [|discriminate].
+    intros H; inversion H; subst. split; [apply repeat_length|]. intros j Hj.
+    rewrite <- (nth_repeat_same v n j) at 2. apply nth_indep. now rewrite repeat_length.
+  - intros H; inversion H; subst. split; [apply repeat_length|intros; apply nth_repeat_same].
+Qed.
+
+Lemma post_vec_length (o : sopts A) nm k vec : length (post_vec A o nm k vec) = length vec.
+Proof.
+  unfold post_vec.
+  destruct (flookup A (o_overwrites o) nm); destruct (flookup A (o_fallbacks o) nm); destruct (o_clip_base o);
+    repeat rewrite map_length; try rewrite combine_length, seq_length; try lia; reflexivity.
+Qed.
+
+Lemma post_vec_nth (o : sopts A) nm k vec j : (j < length vec)%nat ->
+  nth j (post_vec A o nm k vec) (miss A) =
+    (let v0 := nth j vec (miss A) in
+     let v1 := if o_clip_base o then (if nmem j (o_base o) then v0 else miss A) else v0 in
+     let v2 := match flookup A (o_fallbacks o) nm with
+               | Some f => if is_miss A v1 then fb_at A f k else v1
+               | None => v1
+               end in
+     match flookup A (o_overwrites o) nm with Some f => fb_at A f k | None => v2 end).
+Proof.
+  intros Hj. unfold post_vec. cbv zeta.
+  set (v1l := if o_clip_base o then _ else vec).
+  assert (L1 : length v1l = length vec).
+  { unfold v1l. destruct (o_clip_base o); [|reflexivity]. rewrite map_length, combine_length, seq_length. lia. }
+  assert (N1 : nth j v1l (miss A) = if o_clip_base o then (if nmem j (o_base o) then nth j vec (miss A) else miss A)
+                                    else nth j vec (miss A)).
+  { unfold v1l. destruct (o_clip_base o); [|reflexivity].
+    rewrite nth_map_in with (d' := (O, miss A)) by (rewrite combine_length, seq_length; lia).
+    rewrite combine_nth by now rewrite seq_length. rewrite seq_nth by assumption. reflexivity. }
+  set (v2l := match flookup A (o_fallbacks o) nm with Some f => _ | None => v1l end).
+  assert (L2 : length v2l = length vec).
+  { unfold v2l. destruct (flookup A (o_fallbacks o) nm); [rewrite map_length|]; assumption. }
+  assert (N2 : nth j v2l (miss A) = match flookup A (o_fallbacks o) nm with
+                                    | Some f => if is_miss A (nth j v1l (miss A)) then fb_at A f k else nth j v1l (miss A)
+                                    | None => nth j v1l (miss A)
+                                    end).
+  { unfold v2l. destruct (flookup A (o_fallbacks o) nm); [|reflexivity].
+    now rewrite nth_map_in with (d' := miss A) by lia. }
+  destruct (flookup A (o_overwrites o) nm) as [f|].
+  - now rewrite nth_map_in with (d' := miss A) by lia.
+  - rewrite N2, N1. reflexivity.
+Qed.
+
+Lemma slate_cell_spec (db : databox) nms fr from n (o : sopts A) sl k q j :
+  from_databox A db (Some nms) fr from n o = Ok sl ->
+  (k < o_nvar o)%nat -> (q < length nms)%nat -> (j < n)%nat ->
+  slate_cell A sl k q j = expected db o (nth q nms ""%string) k from (from + Z.of_nat j).
+Proof.
+  unfold from_databox. destruct nms as [|n0 nr] eqn:En; [simpl; lia|]. rewrite <- En. clear En n0 nr.
+  intros H Hk Hq Hj.
+  destruct (all_ok_spec _ _ H) as [Hl Hn].
+  specialize (Hn k [] ltac:(now rewrite map_length, seq_length)).
+  rewrite nth_map_in with (d' := O) in Hn by now rewrite seq_length.
+  rewrite seq_nth in Hn by assumption. cbn [Nat.add] in Hn. unfold slate_variant in Hn.
+  destruct (all_ok_spec _ _ Hn) as [Hl2 Hn2].
+  specialize (Hn2 q [] ltac:(now rewrite map_length)).
+  rewrite nth_map_in with (d' := ""%string) in Hn2 by assumption.
+  destruct (item_vec A fr from n k (dget A db (nth q nms ""%string))) as [vec|e] eqn:Ev; [|discriminate].
+  inversion Hn2 as [Hrow]. clear Hn2.
+  destruct (item_vec_spec _ _ _ _ _ _ _ Ev) as [Lv Nv].
+  unfold slate_cell. rewrite <- Hrow. rewrite post_vec_nth by lia. rewrite Nv by assumption.
+  unfold expected. replace (Z.to_nat (from + Z.of_nat j - from)) with j by lia. reflexivity.
+Qed.
+
+Lemma to_databox_fold sl fr from n nvar trimmed (l : list string) : forall a (acc : databox) nm,
+  let res := fold_left (fun acc p => dset A acc (snd p) (ISer A ""%string (slate_series A sl fr from n nvar trimmed (fst p))))
+                       (combine (seq a (length l)) l) acc in
+  (In nm l -> exists q, (a <= q < a + length l)%nat /\ nth (q - a) l ""%string = nm /\
+                        dget A res nm = Some (ISer A ""%string (slate_series A sl fr from n nvar trimmed q))) /\
+  (~ In nm l -> dget A res nm = dget A acc nm).
+Proof.
+  induction l as [|x r IH]; intros a acc nm; cbn [length seq combine fold_left].
+  - split; [intros []|reflexivity].
+  - cbn [fst snd]. specialize (IH (S a) (dset A acc x (ISer A ""%string (slate_series A sl fr from n nvar trimmed a))) nm).
+    cbv zeta in IH. destruct IH as [IH1 IH2].
+    destruct (in_dec string_dec nm r) as [Hr|Hr].
+    + split; [|intros Hn; exfalso; apply Hn; now right]. intros _.
+      destruct (IH1 Hr) as (q & Hq & Hnth & Hget). exists q. split; [simpl; lia|]. split; [|assumption].
+      replace (q - a)%nat with (S (q - S a)) by lia. exact Hnth.
+    + split.
+      * intros [->|Hx]; [|contradiction]. exists a. split; [simpl; lia|]. split; [now rewrite Nat.sub_diag|].
+        rewrite IH2 by assumption. apply dget_dset_same.
+      * intros Hn. rewrite IH2 by assumption. apply dget_dset_other. intros ->. apply Hn. now left.
+Qed.
+
+Lemma slate_series_cell sl fr from n nvar trimmed q t k : (k < nvar)%nat ->
+  cell A (slate_series A sl fr from n nvar trimmed q) t k =
+    if (from <=? t) && (t <? from + Z.of_nat n) then slate_cell A sl k q (Z.to_nat (t - from)) else miss A.
+Proof.
+  intros Hk. unfold slate_series.
+  set (rows := map (fun t0 => map (fun k0 => slate_cell A sl k0 q t0) (seq 0 nvar)) (seq 0 n)).
+  set (s0 := mkSeries fr (Some from) nvar rows).
+  assert (Hwf : WF A s0).
+  { split; [|discriminate]. apply Forall_forall. intros r Hr. unfold rows in Hr.
+    apply in_map_iff in Hr as (j & <- & _). now rewrite map_length, seq_length. }
+  assert (E : cell A (if trimmed then trim A s0 else s0) t k = cell A s0 t k).
+  { destruct trimmed; [|reflexivity]. unfold cell. now rewrite row_at_trim. }
+  rewrite E. unfold cell, row_at, s0. cbn [s_start s_data s_nv].
+  destruct (Z.ltb_spec t from) as [Hlt|Hge].
+  - destruct (Z.leb_spec from t); [lia|]. simpl. unfold missrow. apply nth_repeat_same.
+  - destruct (Z.leb_spec from t); [|lia]. simpl.
+    destruct (Z.ltb_spec t (from + Z.of_nat n)) as [Hin|Hout].
+    + unfold rows. rewrite nth_map_in with (d' := O) by (rewrite seq_length; lia).
+      rewrite seq_nth by lia. rewrite nth_map_in with (d' := O) by now rewrite seq_length.
+      rewrite seq_nth by assumption. reflexivity.
+    + rewrite (nth_overflow rows) by (unfold rows; rewrite map_length, seq_length; lia).
+      unfold missrow. apply nth_repeat_same.
+Qed.
+
+Lemma slate_series_shape sl fr from n nvar trimmed q :
+  let s := slate_series A sl fr from n nvar trimmed q in
+  WF A s /\ s_nv s = nvar /\ (trimmed = true -> Trimmed A s).
+Proof.
+  unfold slate_series.
+  set (rows := map (fun t0 => map (fun k0 => slate_cell A sl k0 q t0) (seq 0 nvar)) (seq 0 n)).
+  set (s0 := mkSeries fr (Some from) nvar rows).
+  assert (Hwf : WF A s0).
+  { split; [|discriminate]. apply Forall_forall. intros r Hr. unfold rows in Hr.
+    apply in_map_iff in Hr as (j & <- & _). now rewrite map_length, seq_length. }
+  cbv zeta. destruct trimmed.
+  - split; [now apply trim_WF|]. split; [|intros _; now apply trim_Trimmed].
+    unfold trim, s0. cbn [s_start s_data s_nv s_freq]. destruct (drop_leading A rows) as [m r1].
+    destruct (rev (snd (drop_leading A (rev r1)))); reflexivity.
+  - split; [assumption|]. split; [reflexivity|discriminate].
+Qed.
+
+Theorem slate_roundtrip_spec (db : databox) nms fr from n (o : sopts A) trimmed db' :
+  slate_roundtrip A db (Some nms) fr from n o trimmed = Ok db' ->
+  (forall nm, In nm nms ->
+     exists s, dget A db' nm = Some (ISer A ""%string s) /\ WF A s /\ s_nv s = o_nvar o /\
+               (trimmed = true -> Trimmed A s) /\
+               forall t k, (k < o_nvar o)%nat ->
+                 cell A s t k = if (from <=? t) && (t <? from + Z.of_nat n) then expected db o nm k from t else miss A)
+  /\ (forall nm, ~ In nm nms -> dget A db' nm = None).
+Proof.
+  unfold slate_roundtrip. destruct (from_databox A db (Some nms) fr from n o) as [sl|e] eqn:E; [|discriminate].
+  intros H; inversion H; subst. clear H. unfold to_databox.
+  split.
+  - intros nm Hin.
+    destruct (to_databox_fold sl fr from n (o_nvar o) trimmed nms O [] nm) as [H1 _].
+    destruct (H1 Hin) as (q & Hq & Hnth & Hget). rewrite Nat.sub_0_r in Hnth.
+    eexists. split; [exact Hget|].
+    destruct (slate_series_shape sl fr from n (o_nvar o) trimmed q) as (Hwf & Hnv & Htr).
+    split; [assumption|]. split; [assumption|]. split; [assumption|].
+    intros t k Hk. rewrite slate_series_cell by assumption.
+    destruct ((from <=? t) && (t <? from + Z.of_nat n)) eqn:Ein; [|reflexivity].
+    apply andb_true_iff in Ein as [E1 E2]. apply Z.leb_le in E1. apply Z.ltb_lt in E2.
+    rewrite (slate_cell_spec db nms fr from n o sl k q (Z.to_nat (t - from)) E) by lia.
+    rewrite Hnth. f_equal. lia.
+  - intros nm Hn. destruct (to_databox_fold sl fr from n (o_nvar o) trimmed nms O [] nm) as [_ H2].
+    now rewrite H2.
+Qed.
+
+(* names=None is the same as naming every key of the databox *)
+Lemma slate_roundtrip_all_names (db : databox) fr from n (o : sopts A) trimmed :
+  slate_roundtrip A db None fr from n o trimmed = slate_roundtrip A db (Some (names A db)) fr from n o trimmed.
+Proof. reflexivity. Qed.
+
+End SlateProofs.
